@@ -355,7 +355,7 @@ func cmdCheck(args []string) {
 		for _, inst := range insts {
 			params := mergeParams(base, inst)
 			e.params = params
-			e.solverKind = envOr("SYMGO_SOLVER", "z3")
+			e.solverKind = envOr("SYMGO_SOLVER", "z3-new")
 			if hc.Solver != "" {
 				e.solverKind = hc.Solver
 			}
